@@ -54,6 +54,7 @@ func init() {
 		ruleGRDorder(w, r)
 		ruleGRDxlate(w, r)
 		ruleGRDscope(w, r)
+		ruleSIBviews(w, r) // graph-scoped search reads the reverse view: both views must agree
 	})
 }
 
@@ -64,5 +65,22 @@ func init() {
 		ruleGRDlive(w, r)
 		ruleGRDalias(w, r)
 		ruleSIBsame(w, r)
+	})
+}
+
+func init() {
+	register("C10", "edge store keeps forward and reverse views consistent and history queryable", func(w *World, r *Report) {
+		ruleSIBviews(w, r)
+		ruleCDC9(w, r)
+		ruleCDC123(w, r, map[string]bool{"GLINK": true, "GUNLINK": true})
+		ruleCDC4(w, r, map[string]bool{"GLINK": true, "GUNLINK": true})
+	})
+	register("C11", "graph queries compute exact bounded reachability and shortest paths", func(w *World, r *Report) {
+		ruleGRDbfs(w, r, []bfsSpec{{"pkg/engine", "Engine.resolveGraphFilter", true}, {"pkg/engine", "Engine.VExtractSubgraph", true}, {"pkg/engine", "Engine.FindPath", false}}, "GRD-bfs")
+		ruleGRDpath(w, r)
+	})
+	register("C12", "deleting a node leaves no live edge to or from it", func(w *World, r *Report) {
+		ruleSIB4(w, r)
+		ruleSIBviews(w, r)
 	})
 }
